@@ -147,6 +147,40 @@ def put (c : Cache) (pgno subno : Nat) (func : Int) (text : Text) (tag : Nat := 
   | none =>
     c.setSlot pgno ⟨sl.stat.add s, ⟨s, func, text, tag⟩ :: sl.chain⟩ (c.nCached + 1)
 
+/-! ### the two source shapes of `_vbi_cache_put_page` (finding F17 / C17-D2 and its repair)
+
+`put` above follows the source as it was when F17 was found: the look-up under the key finds ONE page (the most recently
+used one that matches) and only that one is replaced.  fixes/C10-put-replaces-all-versions.diff adds, for the
+single-version key classes (`0 == subno_mask`, modulus 1 here), a walk over the hash chain that `delete_page`s every OTHER
+cached page of the page number (one `cache_network_remove_page` each) before the page found is replaced.
+translate/gen_cache.py reads which text the source has (`Zvbi.Gen.Cache.putReplacesAllVersions`); `putF fix` is the store of
+shape `fix`, `putCur` (Search/Current.lean) the one of the current source - what the driver runs. -/
+
+/-- `n` times `cache_network_remove_page` on the statistics of one page number -/
+def Stat.removeN (st : Stat) : Nat → Stat
+  | 0 => st
+  | n + 1 => st.remove.removeN n
+
+/-- repaired shape of `_vbi_cache_put_page`: a store under a single-version key that finds a cached page deletes all
+    the others first (`FOR_ALL_NODES ... if (cp2 != old_cp && cp2->pgno == cp->pgno && cp2->network == cn)
+    delete_page (ca, cp2)`), then replaces the page found -/
+def putR (c : Cache) (pgno subno : Nat) (func : Int) (text : Text) (tag : Nat := 0) : Cache :=
+  if pgno % 256 = 255 then c else
+  let (s, m) := putKey pgno subno
+  let sl := c.slots pgno
+  match removeFirst (fun e => e.subno % m = s % m) sl.chain with
+  | some (_, rest) =>
+    if m = 1 then
+      c.setSlot pgno ⟨(sl.stat.removeN rest.length).remove.add s, [⟨s, func, text, tag⟩]⟩ (c.nCached - rest.length - 1 + 1)
+    else
+      c.setSlot pgno ⟨sl.stat.remove.add s, ⟨s, func, text, tag⟩ :: rest⟩ (c.nCached - 1 + 1)
+  | none =>
+    c.setSlot pgno ⟨sl.stat.add s, ⟨s, func, text, tag⟩ :: sl.chain⟩ (c.nCached + 1)
+
+/-- `_vbi_cache_put_page` of source shape `fix` (`false`: as found, `true`: repaired) -/
+def putF (fix : Bool) (c : Cache) (pgno subno : Nat) (func : Int) (text : Text) (tag : Nat := 0) : Cache :=
+  if fix then putR c pgno subno func text tag else put c pgno subno func text tag
+
 /-! ## `_vbi_cache_get_page (ca, cn, pgno, subno, -1)` -/
 
 def validPgno (pgno : Int) : Bool := 0x100 ≤ pgno && pgno ≤ 0x8FF && pgno % 256 != 255
